@@ -37,7 +37,7 @@ def one(spec):
     src = Path(f"{base}/{ID}/_out/change{K}")
     wt = Path(f"{base}/{ID}")  # the demos assert that `pde` is imported from this very worktree
     out = Path(f"/verif/seeded/{ID}-{DK}")
-    meta = {"property": ID, "change": int(DK), "batch": 3 if base.endswith("seed3") else 4, "source": str(src)}
+    meta = {"property": ID, "change": int(DK), "batch": int(base.rstrip("/")[-1]) if base.rstrip("/")[-1].isdigit() else 0, "source": str(src)}
     patch, demo = src / "patch.diff", src / "demo.py"
     assert patch.exists() and demo.exists(), f"{src}: patch.diff / demo.py missing"
     rc, o = sh("git status --porcelain --untracked-files=no", cwd=wt)
